@@ -275,76 +275,36 @@ state the guard the real code relies on: whenever an options block is accepted (
 stored, so `z[1] = Options[nOpts+2]` and `z[3] = Options[nOpts+4]` (and every index the reader writes) are inside the array and inside the
 model's list — `getD` never falls back to its default. -/
 
-theorem readIntLines_length {k : Nat} {inp r : Bytes} {vs : List Int} (h : readIntLines k inp = .ok (vs, r)) : vs.length = k := by
-  induction k generalizing inp vs r with
-  | zero => simp [readIntLines] at h; rw [h.1]; rfl
-  | succ k ih =>
-    unfold readIntLines at h
-    split at h
-    · simp at h
-    · split at h
-      · simp at h
-      · rename_i v r1 _ vs' r2 h2
-        simp at h
-        rw [← h.1]; simp [ih h2]
-
-theorem optHeader_bound {o0 o2 : Int} {n : Nat} {vb : Bool} (h : optHeader o0 o2 = some (n, vb)) : 1 ≤ n ∧ n ≤ 9 := by
-  unfold optHeader at h
-  split at h
-  · simp at h
-  · split at h <;> simp at h <;> omega
-
 theorem C14_options_array_bound_text (inp r : Bytes) (o : Opts) (h : optsText inp = .ok (o, r)) :
-    o.opts.length = o.nOpts + 5 ∧ o.nOpts + 5 ≤ 14 ∧ 1 ≤ o.nOpts := by
-  unfold optsText at h
-  split at h
-  · simp at h
-  · rename_i o4 r1 h4
-    have l4 := readIntLines_length h4
-    split at h
-    · simp at h
-    · rename_i nOpts vb hh
-      have hb := optHeader_bound hh
-      split at h
-      · simp at h
-      · rename_i more r2 hm
-        have lm := readIntLines_length hm
-        by_cases hv : vb = true
-        · simp only [hv, if_true] at h
-          split at h
-          · simp at h
-          · split at h
-            · simp at h
-            · simp at h; obtain ⟨h1, _⟩ := h; subst h1; simp [l4, lm]; omega
-        · simp only [hv] at h
-          simp at h; obtain ⟨h1, _⟩ := h; subst h1; simp [l4, lm]; omega
-
-theorem i32s_length (k : Nat) (b : Bytes) : (i32s k b).length = k := by
-  induction k generalizing b with
-  | zero => simp [i32s]
-  | succ k ih => simp [i32s, ih]
+    o.opts.length = o.nOpts + 5 ∧ o.nOpts + 5 ≤ 14 ∧ 1 ≤ o.nOpts := optsText_bound inp r o h
 
 /-- the same for the binary format: an accepted Options record stored exactly `nOpts + 5 ≤ 14` integers -/
 theorem C14_options_array_bound_bin (L : Nat) (inp r : Bytes) (o : Opts) (h : optsBin L inp = .ok (o, r)) :
-    o.opts.length = o.nOpts + 5 ∧ o.nOpts + 5 ≤ 14 ∧ 1 ≤ o.nOpts := by
-  unfold optsBin at h
-  split at h
-  · simp at h
-  · split at h
-    · simp at h
-    · split at h
-      · simp at h
-      · split at h
-        · dsimp only at h; split at h <;> simp at h
-        · dsimp only at h
-          split at h
-          · simp at h
-          · rename_i nOpts vb hh
-            have hb := optHeader_bound hh
-            repeat' split at h
-            all_goals first
-              | (simp at h; done)
-              | (simp at h; obtain ⟨h1, _⟩ := h; subst h1; simp [i32s_length]; omega)
+    o.opts.length = o.nOpts + 5 ∧ o.nOpts + 5 ≤ 14 ∧ 1 ≤ o.nOpts := optsBin_bound L inp r o h
+
+/-- **What `OnAMPLOptions` receives.**  Every options block delivered to the handler (`ao.options_.assign(Options, Options+nOpts+5)`) has between 6 and 14
+values, for every file, format, declared size and handler. -/
+theorem C14_options_handed_to_handler (fx fm : Bool) (nv nc : Nat) (pol : Policy) (bytes : Bytes) (hs : SanePol pol) :
+    ∀ e ∈ (readSol fx fm nv nc pol bytes).evs, ∀ opts vb t, e = .options opts vb t → 6 ≤ opts.length ∧ opts.length ≤ 14 := by
+  intro e he opts vb t h
+  have := evsInv_mem (readSol_inv (fx := fx) (fm := fm) (nv := nv) (nc := nc) pol bytes hs).evs e he
+  subst h
+  exact this
+
+/-- `m\n\nOptions\n5\n1\n1\n0\n0\n0\n0\n0\n0\n0\n`: a valid file with 5 AMPL options -/
+def fiveOpts : Bytes := [109, 10, 10, 79, 112, 116, 105, 111, 110, 115, 10, 53, 10, 49, 10, 49, 10, 48, 10, 48, 10, 48, 10, 48, 10, 48, 10, 48, 10, 48, 10]
+
+/-- **A receiving array of `MAX_AMPL_OPTIONS = 9` is too small** (the C API's `AMPLOptions_C::options_`, filled by `std::copy` of the whole list in
+`NLW2_SOLHandler_C_Impl::OnAMPLOptions`): a valid file with 5 options is read OK and hands 10 values to the handler; the bound 14 of the previous theorem is attained with 9 options. -/
+theorem C14_counterexample_c_api_options_array :
+    (readSol true true 0 0 readAll fiveOpts) = ⟨.ok, [.msg [109, 10] 0, .options [5, 1, 1, 0, 0, 0, 0, 0, 0, 0] false []], false⟩ ∧
+    ([5, 1, 1, 0, 0, 0, 0, 0, 0, 0] : List Int).length > 9 ∧
+    (∃ o r, optsText (str "9\n1\n1\n1\n1\n1\n1\n1\n1\n1\n0\n0\n0\n0\n") = .ok (o, r) ∧ o.opts.length = 14) := by
+  refine ⟨by decide, by decide, ⟨[9, 1, 1, 1, 1, 1, 1, 1, 1, 1, 0, 0, 0, 0], 9, false, []⟩, [], by rfl, rfl⟩
+
+/-- the capacity of the C struct as it is in the tree under test (regenerated from sol-handler-c.h on every run): either the unsafe 9 — the open finding
+`C14-c-api-ampl-options-overflow` — or at least the 14 that `C14_options_handed_to_handler` shows to be sufficient (repo_patches/C14-c-api-ampl-options-overflow.diff) -/
+theorem C14_gen_c_api_capacity : MpVerif.Gen.SolGuards.c_api_options_capacity = 9 ∨ 14 ≤ MpVerif.Gen.SolGuards.c_api_options_capacity := by decide
 
 /-- … and every later use of the options (`z[1]`, `z[3]`) reads an entry that was stored -/
 theorem C14_options_index_in_bounds (inp r : Bytes) (o : Opts) (L : Nat)
